@@ -72,6 +72,22 @@ func c18Build(attempt int, decoy any, decoyPresent bool, inner any) string {
 		in["$parent"] = "base"
 		vfsAddFile("root/in.yaml", in)
 		return "root/in.yaml"
+	case 13: // a chain of more links than os.Root follows (8); the 9th leaves the root
+		vfsAddSymlink("root/in.yaml", "c1.yaml")
+		for i := 1; i < 9; i++ {
+			vfsAddSymlink("root/c"+string(rune('0'+i))+".yaml", "c"+string(rune('0'+i+1))+".yaml")
+		}
+		vfsAddSymlink("root/c9.yaml", "../decoy.yaml")
+		return "root/in.yaml"
+	case 14: // the same through a parent, the long chain made of directory links
+		vfsAddSymlink("root/d1", "d2")
+		for i := 2; i < 10; i++ {
+			vfsAddSymlink("root/d"+string(rune('0'+i)), "d"+string(rune('0'+i+1)))
+		}
+		vfsAddSymlink("root/d:", "..")
+		in["$parent"] = "d1/decoy"
+		vfsAddFile("root/in.yaml", in)
+		return "root/in.yaml"
 	default: // a parent inside a sub-directory referring back up and out
 		vfsAddFile("root/sub/mid.yaml", map[string]any{"$parent": "../../decoy", "mid": 1})
 		in["$parent"] = "sub/mid"
@@ -120,7 +136,7 @@ func c18Run(path string, spelling int) c18Result {
 // attempt to reach such a file fails, and file content is obtained only
 // through the os.Root handle from inside the root.
 func HarnessC18_root() {
-	attempt := ndChoice(13)
+	attempt := ndChoice(15)
 	spelling := ndChoice(5)
 	inner := ndScalarNN()
 	d1 := map[string]any{"secret": ndScalarNN()}
